@@ -70,6 +70,8 @@ def run_case(ctx, mr, case):
             if rng.random() < 0.3:
                 ops += [['r', rng.choice([1, 0x200, 0x333])]]
         ops += [['s', -5, 2], ['r', 100], ['s', 0x18A, 0], ['r', 7]]
+        # relative seeks that would leave the file at its front: the position stays at 0 (never negative), reads go on from there
+        ops += [['s', -(n + 7), 2], ['t'], ['r', 5], ['s', -(10 ** 6), 1], ['t'], ['r', 0x203], ['s', 3, 0], ['s', -4, 1], ['r', 2]]
         c.run(ops)
         if r.content_size != info['content_size'] or len(want) != info['content_size']:
             fail('size', 'image size differs from the declared container size', info['content_size'], r.content_size)
